@@ -41,7 +41,7 @@ ASSUMPTIONS = ['pandas is absent: an empty stub module satisfies the unused top-
                'remove_matrixzeros_sinex must drop all-zero lines spelled 0.00000000000000e+00 (its documented form); all-zero '
                'lines in another spelling (E exponent) may stay or go, they are only counted',
                'matrix values are 15-significant-digit numerals (E21.14), compared as exact decimals']
-REQUIRED_COUNTERS = ['clock_reads', 'stns_edits_L', 'stns_edits_U', 'stns_edits_vel', 'stns_edits_novel', 'velocity_edits',
+REQUIRED_COUNTERS = ['clock_equal_to_parameter_count_edits', 'clock_reads', 'stns_edits_L', 'stns_edits_U', 'stns_edits_vel', 'stns_edits_novel', 'velocity_edits',
                      'zeros_edits', 'zero_lines_in_input', 'wellformed_judged', 'header_layout_judged',
                      'estimates_judged', 'matrix_judged', 'matrix_values_compared', 'clock_pairs_judged',
                      'read_estimate_judged', 'read_matrix_judged', 'read_sites_judged', 'agency_with_V_velocity_edits',
@@ -639,7 +639,17 @@ def run_file(h, ctx, f, seed, rnd, tmp):
     first = True
     nsub = 0
     for sub in subsets_of(f, m, rnd):
-        run_edit(h, ctx, m, lines, inpath, 'stns', sub, clocks_for(e, seed), sample=(first and g['nst'] > 1))
+        clocks = clocks_for(e, seed)
+        if nsub % 3 == 0:
+            # hostile clocks built from the file's own numbers: the second of the day equal to the parameter count of the
+            # input and of the expected output (header edits that search for the count as a string meet it in the time stamp)
+            old_n = int(lines[0][60:65])
+            new_n = len(sx.keep_indices(m, sub))
+            for n_ in {old_n, new_n}:
+                if 0 < n_ < 86400:
+                    clocks = clocks + [[2024, 3, 1, n_ // 3600, (n_ % 3600) // 60, n_ % 60, 0]]
+            ctx.count('clock_equal_to_parameter_count_edits')
+        run_edit(h, ctx, m, lines, inpath, 'stns', sub, clocks, sample=(first and g['nst'] > 1))
         first = False
         e += 1
         nsub += 1
